@@ -2,6 +2,7 @@ import Driver.Paych
 import Driver.VM
 import Driver.MinerLedger
 import Driver.Cron
+import Driver.Multisig
 
 /-- generic stdin/stdout loop over a pure handler -/
 partial def loop {σ : Type} (h : IO.FS.Stream) (out : IO.FS.Stream) (step : σ → String → σ × String)
@@ -21,4 +22,5 @@ def main (args : List String) : IO UInt32 := do
   | ["vm"] => loop stdin stdout Driver.VM.handle (); return 0
   | ["minerledger"] => loop stdin stdout Driver.MinerLedger.handle []; return 0
   | ["cron"] => loop stdin stdout Driver.Cron.handle (); return 0
+  | ["multisig"] => loop stdin stdout Driver.Multisig.handle []; return 0
   | _ => IO.eprintln "usage: driver <model>"; return 2
